@@ -376,8 +376,51 @@ UNSEEDED_GENERATORS = {
     "pyxel.calibration.calibration:Calibration.__init__": "draws the optimiser seed itself when the user gave none (no seed requested => nothing to reproduce)",
 }
 
+def r7_no_uninitialised_buffers(ctx):
+    """No model, container or detector code allocates with np.empty / np.empty_like / np.ndarray(shape): whatever is not overwritten afterwards holds recycled memory, so the same seeded run differs from call to call."""
+    n = 0
+    for f in ctx.repo.all_functions():
+        if not f.module.name.startswith(("pyxel.models", "pyxel.data_structure", "pyxel.detectors", "pyxel.exposure", "pyxel.observation", "pyxel.calibration", "pyxel.util", "pyxel.inputs")):
+            continue
+        n += 1
+        for c in calls_in(f.node):
+            ext = ctx.repo.external_name(f.module, c.func) or call_name(c)
+            if ext in ("numpy.empty", "numpy.empty_like", "numpy.ndarray", "np.empty", "np.empty_like", "np.ndarray"):
+                ctx.fail(f.qual + "#" + ext.split(".")[-1], f"`{norm(c)[:60]}` allocates an uninitialised buffer: elements that are not overwritten hold recycled memory (results are not reproducible)", where=f, node=c)
+    ctx.check(True, "pyxel#no-empty", f"{n} functions inspected, no np.empty / np.empty_like / np.ndarray(shape)")
+
+
+def r8_seed_zero_is_a_seed(ctx):
+    """A seed is tested with `is None`, never by truthiness: `seed or default`, `if seed:` and `if not seed:` replace the valid seed 0 by "no seed" (a random one), so a run seeded with 0 is not reproducible."""
+    n = 0
+
+    def is_seed(e):
+        d = dotted(e) or ""
+        return "seed" in d.split(".")[-1].lower()
+
+    for f in ctx.repo.all_functions():
+        for node in walk_local(f.node):
+            bad = None
+            if isinstance(node, ast.BoolOp) and isinstance(node.op, ast.Or) and is_seed(node.values[0]):
+                bad = node
+            elif isinstance(node, (ast.If, ast.IfExp, ast.While)):
+                t = node.test
+                while isinstance(t, ast.UnaryOp) and isinstance(t.op, ast.Not):
+                    t = t.operand
+                if is_seed(t):
+                    bad = node.test
+                elif isinstance(t, ast.BoolOp) and any(is_seed(v.operand if isinstance(v, ast.UnaryOp) and isinstance(v.op, ast.Not) else v) for v in t.values):
+                    bad = t
+            if bad is not None:
+                n += 1
+                ctx.fail(f.qual + "#seed-truthiness", f"`{norm(bad)[:70]}` tests a seed by truthiness: the valid seed 0 is treated as 'no seed'", where=f, node=bad)
+    ctx.check(True, "pyxel#seed-tests", "no seed is tested by truthiness")
+
+
 FIXTURES = {
     "r2_who_may_touch": {"dir": "c04_r2", "expect_construct": "numpy.random.seed"},
+    "r7_no_uninitialised_buffers": {"dir": "c04_r7", "expect_construct": "empty"},
+    "r8_seed_zero_is_a_seed": {"dir": "c04_r8", "expect_construct": "seed-truthiness"},
 }
 
 def r6_island_seed_pairing(ctx):
@@ -387,4 +430,4 @@ def r6_island_seed_pairing(ctx):
     r5_island_order(ctx)
 
 
-RULES = [r6_island_seed_pairing, r1_context_manager, r2_who_may_touch, r3_mode_seed_reaches_pipeline, r4_seeded_models, r5_uncontrolled_draws]
+RULES = [r7_no_uninitialised_buffers, r8_seed_zero_is_a_seed, r6_island_seed_pairing, r1_context_manager, r2_who_may_touch, r3_mode_seed_reaches_pipeline, r4_seeded_models, r5_uncontrolled_draws]
